@@ -204,6 +204,7 @@ CHECKS["C12"] = dict(
                "Listed findings: v2/v3 ciphers are unauthenticated stream ciphers (bit flips beyond the salt bytes change permissions/target/expiry at will).",
     rule="rapid-generated (key, modification) pairs + enumerated single-bit flips; non-trivial = the modified string is still 32 valid characters; distinct = distinct case value.",
     legs=[dict(name="tamper", test="^TestTamper$", quick=dict(n=6000, procs=3, timeout=300), thorough=dict(n=600000, procs=12, timeout=2400)),
+          dict(name="issued-splice", test="^TestSpliceIssuedKeys$", kind="plain", quick=dict(n=200, procs=1, timeout=300), thorough=dict(n=5000, procs=2, timeout=900)),
           dict(name="bitflips", test="^TestSingleBitFlips$", kind="plain", quick=dict(n=1, procs=1, timeout=300), thorough=dict(n=1, procs=1, timeout=300))],
 )
 
@@ -279,7 +280,7 @@ CHECKS["C18"] = dict(
                "watcher - which makes 'none after cancel' conclusive. Cluster survey answers no peers.",
     rule="rapid-generated histories; non-trivial = >=2 transitions, a connection going away and the toggling watcher notified at least once; distinct = distinct case value.",
     legs=[dict(name="presence", test="^TestPresence$", quick=dict(n=300, procs=4, timeout=400), thorough=dict(n=30000, procs=14, timeout=3000)),
-          dict(name="backlog", test="^TestOrderUnderBacklog$", kind="plain", quick=dict(n=2, procs=1, timeout=300), thorough=dict(n=20, procs=1, timeout=900))],
+          dict(name="backlog", test="^TestOrderUnderBacklog$", kind="plain", quick=dict(n=4, procs=1, timeout=300), thorough=dict(n=20, procs=1, timeout=900))],
 )
 
 CHECKS["C14"] = dict(
